@@ -320,7 +320,7 @@ class Run:
                 self.inconclusive.append("probe %s: %s" % (pr["probe"], pr["message"]))
             elif pr["failed"]:
                 if k and k["status"] == "known" and pr["oracle"] in k.get("oracles", []):
-                    lines.append("KNOWN-FINDING: property=%s %s [%s]" % (self.prop, k["what"], pr["probe"]))
+                    lines.append("KNOWN-FINDING: property=%s %s [%s]" % (self.prop, k.get("what", k.get("probe", "?")), pr["probe"]))
                     entry["classified"] = "known-finding"
                 else:
                     v = pr["violation"]
@@ -331,7 +331,7 @@ class Run:
                     exit_code = 1
             else:
                 if k and k["status"] == "known":
-                    lines.append("NOTE: known finding not reproduced by its probe: property=%s %s [%s]" % (self.prop, k["what"], pr["probe"]))
+                    lines.append("NOTE: known finding not reproduced by its probe: property=%s %s [%s]" % (self.prop, k.get("what", k.get("probe", "?")), pr["probe"]))
                 entry["classified"] = "held"
             probe_report.append(entry)
 
